@@ -274,6 +274,38 @@ def p_same_expr_probe_between(version):
     return "DIFFERENT after_query=%s after_router=%s\n" % (t1 != t2, t2 != t3) + t1 + "\n-----\n" + t2 + "\n-----\n" + t3
 
 
+def p_same_compilation_twice(version):
+    """ONE Compilation object whose compile() is called repeatedly (recursive routine with locals, mutual
+    recursion, ABI value in main): every call, and a fresh compileTeal of the same expression, give one text"""
+    @pt.Subroutine(pt.TealType.uint64)
+    def fact(n):
+        t = pt.ScratchVar()
+        return pt.Seq(t.store(n), pt.If(t.load() <= pt.Int(1)).Then(pt.Int(1)).Else(t.load() * fact(t.load() - pt.Int(1))))
+
+    @pt.Subroutine(pt.TealType.uint64)
+    def even(n):
+        return pt.If(n == pt.Int(0)).Then(pt.Int(1)).Else(odd(n - pt.Int(1)))
+
+    @pt.Subroutine(pt.TealType.uint64)
+    def odd(n):
+        return pt.If(n == pt.Int(0)).Then(pt.Int(0)).Else(even(n - pt.Int(1)))
+    u = pt.abi.Uint64()
+    x = pt.ScratchVar()
+    e = pt.Seq(u.set(fact(pt.Int(4))), x.store(even(pt.Int(3))), u.get() + x.load())
+    texts = []
+    for opts in (None, pt.OptimizeOptions(scratch_slots=True), pt.OptimizeOptions(frame_pointers=False)):
+        kw = {} if opts is None else {"optimize": opts}
+        c = pt.Compilation(e, pt.Mode.Application, version=version, **kw)
+        t = [c.compile().teal for _ in range(3)]
+        t.append(pt.compileTeal(e, pt.Mode.Application, version=version, **kw))
+        texts.append(t)
+    if all(t[0] == x_ for t in texts for x_ in t):
+        return "SAME"
+    bad = [t for t in texts if any(t[0] != x_ for x_ in t)][0]
+    k = [i for i, x_ in enumerate(bad) if x_ != bad[0]][0]
+    return "DIFFERENT call=%d\n" % k + bad[0] + "\n-----\n" + bad[k]
+
+
 def p_router_twice(version):
     r = _router()
     a1 = r.compile_program(version=version)
@@ -356,7 +388,7 @@ SPLIT_PROBES = {"split_slots": s_slots, "split_subs": s_subs, "split_router": s_
 
 PROBES = {"abi_main": p_abi_main, "recursive": p_recursive, "router": p_router, "slots": p_slots,
           "same_expr_twice": p_same_expr_twice, "same_expr_probe_between": p_same_expr_probe_between,
-          "router_twice": p_router_twice}
+          "router_twice": p_router_twice, "same_expr_one_compilation_object": p_same_compilation_twice}
 PROBE_VERSIONS = (6, 8)
 
 
